@@ -117,6 +117,7 @@ var worldSchemas = map[string][]mCol{
 	"t1": {{"a", "int"}, {"c", "varchar"}},
 	"t2": {{"b", "bigint"}, {"d", "boolean"}, {"c", "varchar"}},
 	"t3": {{"a", "int"}, {"e", "int"}},
+	"T1": {{"a", "int"}, {"c", "varchar"}}, // a second table whose name differs from t1 in letter case only (table names are case-sensitive)
 }
 
 func colDDL(c mCol) string {
